@@ -190,7 +190,7 @@ class Project(MessageHandler):
             ["leaveallowances", "Leave Allowances", AttributeBase, True, False, True, None],  # Placeholder
             ["limits", "Limits", AttributeBase, True, False, True, None],  # Placeholder
             ["managers", "Managers", ResourceListAttribute, True, False, True, []],
-            ["rate", "Rate", FloatAttribute, True, False, True, 0.0],
+            ["rate", "Rate", FloatAttribute, True, True, True, 0.0],  # a global rate is the default
             ["reports", "Reports", ResourceListAttribute, True, False, True, []],
             ["shifts", "Shifts", ShiftAssignmentsAttribute, True, False, True, None],
             ["timezone", "Time Zone", StringAttribute, True, False, True, None],
